@@ -24,7 +24,10 @@ RULE = ("catalogue part: all ordered pairs of the 113 predefined + lab units x {
         "result types, types without reference unit, alias and chained units) with generated operations. Oracle: "
         "dimension vectors and exact reference values from the hand-written table / universe model: cancelling => plain "
         "exact number, dimension owned by a declared type => instance of exactly that type with the exact value "
-        "(rounded once if that type is quantized), otherwise UndefinedResultError. Non-trivial = operands of different "
+        "(rounded once if that type is quantized), otherwise UndefinedResultError; universes also hold types without "
+        "reference unit with units scaled from their bare units (their quotients must be refused or, over the same bare "
+        "units, exact) and an optional declaration X**-1 * X after which cancelling products must stay plain numbers. "
+        "Non-trivial = operands of different "
         "units with a scale != 1, a cancelling pair or an undefined pair; distinct by (op, shape, units, exponent, amounts)")
 ASSUMPTIONS = ["'/' between two different units of one type without reference unit (°C/°F, EUR/USD) is outside this "
                "property's linear oracle (covered by C14/C08)"]
